@@ -405,7 +405,7 @@ def storage_forms(A):
     big = np.zeros((A.shape[0] * 2, A.shape[1] * 2))
     big[::2, ::2] = A
     wp = np.ascontiguousarray(A.T)  # way-points by row, as read from a mission file
-    return [("DM", lambda: ca.DM(A)), ("numpy_C", lambda: np.ascontiguousarray(A)), ("numpy_F", lambda: np.asfortranarray(A)), ("numpy_transposed_view", lambda: wp.T),
+    return [("DM", lambda: ca.DM(A)), ("numpy_C", lambda: np.ascontiguousarray(A)), ("nested_lists_DM", lambda: ca.DM(A.tolist())), ("numpy_F", lambda: np.asfortranarray(A)), ("numpy_transposed_view", lambda: wp.T),
             ("numpy_strided_view", lambda: big[::2, ::2]), ("SX_constant", lambda: ca.SX(ca.DM(A))), ("numpy_reversed_view", lambda: A[:, ::-1][:, ::-1])]
 
 
@@ -452,6 +452,31 @@ def explore_numeric(case):
             except Exception as ex:
                 res.count("evaluations")
                 res.fail(site="Bezier", clause="operation_raises", cls="numeric;" + fname, detail=dict(curve=cname, storage=fname, error="%s: %s" % (type(ex).__name__, str(ex)[:200])), sub="numeric", case=case)
+    # (a') the numeric TYPE of the data and of the duration: what is accepted must be used by its value
+    for cname, row in curves[:4] + curves[6:]:
+        A = np.array([row, row[::-1]])
+        for ttag, conv in (("float32", lambda M: M.astype(np.float32)), ("int64", lambda M: np.rint(M).astype(np.int64)), ("int32_F", lambda M: np.asfortranarray(np.rint(M).astype(np.int32))),
+                           ("object_floats", lambda M: M.astype(object))):
+            for Ttag, Tv in (("float", 2.0), ("int", 2), ("numpy.float64", np.float64(2.0)), ("numpy.int64", np.int64(2))):
+                # (a float32 duration makes numpy carry t / T in single precision: the caller's choice of precision, not judged)
+                res.nontrivial.add(hash(("types", n, cname, ttag, Ttag)))
+                try:
+                    Pt = conv(A)
+                    eff = np.array(Pt, dtype=float)
+                    with contextlib.redirect_stdout(io.StringIO()):
+                        B = bz().Bezier(Pt, Tv)
+                        # evaluation must be possible at all for the form to count as accepted
+                        ca.evalf(ca.densify(ca.SX(B.eval(0.5))))
+                except Exception:  # noqa: BLE001 - refusal
+                    res.count("evaluations")
+                    res.count("refused")
+                    continue
+                try:
+                    with contextlib.redirect_stdout(io.StringIO()):
+                        judge([list(r) for r in eff], B, "curve_of_numeric_control_points", "dtype=%s;T=%s" % (ttag, Ttag), dict(curve=cname, dtype=ttag, T_type=Ttag))
+                except Exception as ex:
+                    res.count("evaluations")
+                    res.fail(site="Bezier", clause="operation_raises", cls="numeric;dtype=%s;T=%s" % (ttag, Ttag), detail=dict(curve=cname, error="%s: %s" % (type(ex).__name__, str(ex)[:200])), sub="numeric", case=case)
     # (b) sequences: every ordered pair (thorough: triple) of curves evaluated one after the other in one process; the last one is judged
     depth = 3 if tier == "thorough" else 2
     for word in itertools.product(range(len(curves)), repeat=depth):
